@@ -201,6 +201,69 @@ Theorem C11_proto_cut_refines_projection :
 Proof. exact pbcut_whole_message. Qed.
 Print Assumptions C11_proto_cut_refines_projection.
 
+(* FULL REFINEMENT (mirror of C11_cut_refines_project for Protobuf). [pspec] is the projection with the order in which errors
+   surface, on frames: complete ones and truncated ones (inc = true: the declared length exceeded the bytes left), with
+   be = "nothing follows the frame in the buffer". For EVERY frame in the domain - all inputs except those pspec marks with
+   code 5: group / reserved wire types, a message-kind field not arriving length-delimited, a length >= 2^63, a record
+   or sub message overrunning its frame while other bytes follow in the buffer - at every nesting depth (message fields,
+   elements of repeated messages, map entries and their message values; packed and unpacked scalars are copied as records):
+     spec succeeds  =>  the walker returns nil error, has consumed exactly the frame, and its output is exactly the encoding of
+                        the projected tree (tags re-encoded, lengths recomputed);
+     spec fails with 1 (unknown field, disallowed) / 2 (descriptor kinds differ) / 4 (malformed or truncated)
+                    =>  the walker fails with the same class.
+   So the byte-level cut fails exactly when the spec does. *)
+Theorem C11_proto_cut_refines_spec_full :
+  forall d dis fuel fi ti frame beyond inc stop,
+  small (frame ++ beyond) -> (inc = true -> beyond = [] /\ stop < 0) -> (inc = false -> stop = Z.of_nat (length beyond)) ->
+  match pspec d dis fuel fi ti frame inc (nilb beyond) with
+  | COk forest => pbcut d dis false fuel fi ti (frame ++ beyond) stop = (0, beyond, enc_forest forest)
+  | CErr c => c = 5 \/ (cls (pbcut d dis false fuel fi ti (frame ++ beyond) stop) = c /\ c <> 0)
+  end.
+Proof.
+  intros d dis fuel fi ti frame beyond inc stop Hs Hi Hc.
+  pose proof (pbcut_refines_pspec d dis fuel fi ti frame beyond inc stop Hs Hi Hc) as H. unfold agrees in H.
+  destruct (pspec d dis fuel fi ti frame inc (nilb beyond)); exact H.
+Qed.
+Print Assumptions C11_proto_cut_refines_spec_full.
+
+(* the whole buffer as MarshalTo sees it (one complete frame, nothing beyond): success iff success, same error class *)
+Theorem C11_proto_MarshalTo_fails_exactly_when_spec_fails :
+  forall d dis fuel fi ti bs, small bs -> pspec d dis fuel fi ti bs false true <> CErr 5 ->
+  (forall forest, pspec d dis fuel fi ti bs false true = COk forest -> pbcut d dis false fuel fi ti bs 0 = (0, [], enc_forest forest)) /\
+  (forall c, pspec d dis fuel fi ti bs false true = CErr c -> cls (pbcut d dis false fuel fi ti bs 0) = c /\ c <> 0) /\
+  (cls (pbcut d dis false fuel fi ti bs 0) = 0 <-> exists forest, pspec d dis fuel fi ti bs false true = COk forest).
+Proof.
+  intros d dis fuel fi ti bs Hs H5.
+  pose proof (pbcut_refines_pspec d dis fuel fi ti bs [] false 0) as H. rewrite app_nil_r in H.
+  specialize (H Hs ltac:(discriminate) ltac:(reflexivity)). cbn [nilb] in H. unfold agrees in H.
+  destruct (pspec d dis fuel fi ti bs false true) as [l|c] eqn:E.
+  - split; [|split].
+    + intros forest Ef. inversion Ef; subst. exact H.
+    + discriminate.
+    + rewrite H. split; [intros _; exists l; reflexivity|reflexivity].
+  - destruct H as [->|[Hc Hc0]]; [contradiction|]. split; [|split].
+    + discriminate.
+    + intros c' Ec. inversion Ec; subst. auto.
+    + split; [intros H0; congruence|intros [forest Ef]; discriminate].
+Qed.
+Print Assumptions C11_proto_MarshalTo_fails_exactly_when_spec_fails.
+
+(* an incomplete (truncated) frame never succeeds *)
+Theorem C11_proto_truncated_frame_never_succeeds :
+  forall d dis fuel fi ti bs be l, pspec d dis fuel fi ti bs true be <> COk l.
+Proof. exact pspec_inc_never_ok. Qed.
+Print Assumptions C11_proto_truncated_frame_never_succeeds.
+
+(* the two specs agree on success: whenever the sequential spec succeeds on a complete frame, the declarative projection
+   (decode the level, keep the numbers declared by both schemas in source order, project message-kind payloads recursively)
+   yields the SAME tree - so C11_proto_fields_exact / C11_proto_numbers_are_intersection_in_source_order describe what the
+   walker outputs for every input it accepts *)
+Theorem C11_proto_spec_success_is_projection :
+  forall d dis fuel fi ti bs be l, bytes_ok bs ->
+  pspec d dis fuel fi ti bs false be = COk l -> pproject d dis fuel fi ti bs = COk l.
+Proof. exact pspec_ok_pproject. Qed.
+Print Assumptions C11_proto_spec_success_is_projection.
+
 (* F{x=7, m={a=10, b="x"}} cut from FU{1:int32, 2:InU{2:string}, 7:string} to itself with DisallowUnknown: the nested
    field 1 is unknown -> the specification demands an error; the unrepaired walker (quirk) drops the inner error *)
 Definition ex_pdefs : pdefs := [ [(1, 5, -1); (2, 11, 1); (7, 9, -1)]; [(2, 9, -1)] ].
